@@ -271,6 +271,8 @@ impl Database {
         catalog: SharedCatalog,
     ) -> DatabaseResult<(TransactionContext, TransactionLogger)> {
         let handle = coordinator.begin()?;
+        #[cfg(feature = "verif")]
+        crate::verif::sched::yield_point("snapshot_taken");
         let tid = handle.id();
         let first_lsn = pager.write().push_to_log(Begin, tid, None)?;
         let ctx = TransactionContext::new(pager.clone(), catalog.clone(), handle)?;
@@ -363,7 +365,11 @@ impl Database {
             let result_guard = runner.prepare_and_run(&sql).map_err(box_err)?;
 
             logger.log_commit().map_err(box_err)?;
+            #[cfg(feature = "verif")]
+            crate::verif::sched::yield_point("commit_logged");
             tx_ctx.commit_transaction().map_err(box_err)?;
+            #[cfg(feature = "verif")]
+            crate::verif::sched::yield_point("committed");
             logger.log_end().map_err(box_err)?;
 
             Ok(result_guard)
@@ -388,7 +394,11 @@ impl Database {
             let result = runner.prepare_and_explain(&sql).map_err(box_err)?;
 
             logger.log_commit().map_err(box_err)?;
+            #[cfg(feature = "verif")]
+            crate::verif::sched::yield_point("commit_logged");
             tx_ctx.commit_transaction().map_err(box_err)?;
+            #[cfg(feature = "verif")]
+            crate::verif::sched::yield_point("committed");
             logger.log_end().map_err(box_err)?;
 
             Ok(result)
@@ -415,7 +425,11 @@ impl Database {
             let results = runner.execute_all(&statements).map_err(box_err)?;
 
             logger.log_commit().map_err(box_err)?;
+            #[cfg(feature = "verif")]
+            crate::verif::sched::yield_point("commit_logged");
             tx_ctx.commit_transaction().map_err(box_err)?;
+            #[cfg(feature = "verif")]
+            crate::verif::sched::yield_point("committed");
             logger.log_end().map_err(box_err)?;
 
             Ok(results)
